@@ -23,6 +23,7 @@
            BASE <addr % 8>, END / DEADLOCK / STEPLIMIT, SCHEDULE ...
    Walks are done HERE with memcpy (not with frame_iterator): the line shows what the bytes are. */
 #include <signal.h>
+#include <sys/time.h>
 #include <stdio.h>
 #include <stdlib.h>
 #include <unistd.h>
@@ -179,6 +180,8 @@ static void client_thread(void* arg)
 static int on_stuck(const char* why) { printf("STUCK %s\n", why); return 0; }
 /* watchdog: a loop without scheduling points that never ends (a walk that does not advance) */
 static void on_alarm(int sig) { (void)sig; fflush(stdout); (void)!write(1, "\nHANG\n", 6); _exit(9); }
+/* CPU time of this process, not wall-clock: a loaded machine must not look like a hang */
+static void watchdog(int seconds) { struct itimerval t = { { 0, 0 }, { seconds, 0 } }; setitimer(ITIMER_PROF, &t, 0); }
 
 int main(void)
 {
@@ -189,8 +192,7 @@ int main(void)
     double delay = 0;
     int mode = 0;
     setvbuf(stdout, 0, _IOLBF, 1 << 16);
-    signal(SIGALRM, on_alarm);
-    alarm(20);
+    signal(SIGPROF, on_alarm);
     while (fgets(line, sizeof line, stdin)) {
         long long a[6];
         if (sscanf(line, "CAP %lld", &cap) == 1) continue;
@@ -224,6 +226,7 @@ int main(void)
 
     struct vs_config c = { 0 };
     c.seed = (uint64_t)seed; c.trace = 0; c.schedule = sched; c.nschedule = nsched; c.mode = mode; c.max_steps = 400000;
+    watchdog(5);   /* a run takes milliseconds of CPU time */
     vs_init(&c);
     vs_on_stuck(on_stuck);
 
